@@ -990,6 +990,15 @@ fn sweep_palette(name: &str, palette: &[Rgb], sw: &mut Sweep) -> Result<(), (Cas
 impl Property for C13 {
     type Case = Case;
 
+    fn fuzz(&self) -> Option<FuzzSpec> {
+        // entropy-driven target: libFuzzer's bytes replace the generator's random numbers
+        Some(FuzzSpec { target: "gen", jobs: 8, runs: 35_000, max_len: 16384, seeds: 64 })
+    }
+
+    fn entropy_tail(&self) -> usize {
+        1 << 19
+    }
+
     fn id(&self) -> &'static str {
         "C13"
     }
